@@ -53,6 +53,8 @@ func c02(c *Ctx) (*report.Result, error) {
 	res.RuleDoc["O2.7"] = "no swallowed error in the files the mechanism lives in: no function returns a nil error on a path on which an error obtained from a call is known to be non-nil (io.EOF from a stream Recv, the normal end of a receive loop, is the one accepted idiom)"
 	res.RuleDoc["O2.11"] = "no dereference of a value on the side on which it was just found nil, in the stream workers' files (a contradiction rule: `p.f != nil || p.f.g` for `&&`, a failed comma-ok assertion's value) - a panic there is not recovered and ends the process; after the restart the source re-sends everything above its acknowledged level, so tasks that had already been delivered are delivered again"
 	checkNoDerefOfKnownNil(c, res, "O2.11", []string{"proxy/proxy_streams.go", "proxy/intra_proxy_router.go", "proxy/shard_manager.go", "proxy/admin_stream_transfer.go"}, 40)
+	res.RuleDoc["O2.12"] = "the watermark replay cannot block the registration of the target it replays to: in both sendPendingWatermarkToShard implementations the blocking DeliverMessagesToShardOwner is reached only when GetRemoteSendChan(target) found no local channel, and the function's own channel sends are selects with a default arm - the replay runs inside RegisterShard, before the registering sender drains its channel"
+	checkReplayNeverBlocksRegistration(c, res, "O2.12")
 	checkNoSwallowedErrors(c, res, "O2.7", []string{"proxy/proxy_streams.go", "proxy/shard_manager.go"})
 	res.RuleDoc["O2.8"] = "relay loops pass every message on: in every loop that takes messages from a stream or channel and forwards them, no path from the take to the next take avoids every stream Send / channel send / Deliver*ToShardOwner (a forwarding loop that runs zero times, the wrong-kind edges of a type assertion and a return that ends the stream are not bypasses; the ack aggregator sendAck is the reviewed exception)"
 	checkRelayLoops(c, res, "O2.8", []string{"proxy/proxy_streams.go", "proxy/intra_proxy_router.go"}, 5)
